@@ -36,7 +36,9 @@ EXHAUSTIVE_SCOPE = {
            "checksums the reference dissector locates; every option/TLV/record slot the dissector locates (TCP and IPv4 options, "
            "DHCP options, LLDP TLVs, ND options, IPv6 extension headers, IGMPv3 records, GRE source route entries) rewritten to every kind "
            "POX parses (plus an unknown one) x length {0,1,2,3,exact,exact+1,max}, also with the input ending at the slot; every "
-           "demultiplexing field set to every value that selects a POX parser",
+           "demultiplexing field set to every value that selects a POX parser; every LLC header with DSAP x SSAP x control format (SNAP / other "
+           "SAPs, U-/I-/S-format) cut at each of its first ten octets; the text-bearing fields (DNS labels/TXT, LLDP strings, DHCP string options, "
+           "sname/file, EAP identity) filled with valid 2-/3-/4-byte UTF-8 sequences and with malformed UTF-8",
   "thorough": "as quick, plus all 256 values at every byte offset that the reference dissector attributes to a header (not to the innermost payload)",
 }
 
@@ -378,6 +380,47 @@ def enum_demux(tier):
         yield {"raw": raw, "fix": True, "src": "repaired-" + src}
 
 
+_LLC_SAPS = (0xaa, 0xab, 0x42, 0x00, 0xe0, 0xff)
+_LLC_CTRL = (0x03, 0x00, 0x01, 0x02, 0x7f, 0xff)      # U-, I-, S-, I-format, U (0x7f), U (0xff) by the two low bits
+
+
+def enum_llc(tier):
+  """802.2 header formats: every corpus frame with an LLC header gets DSAP x SSAP x first control octet (SNAP and non-SNAP
+  SAPs; U-, I- and S-format control fields), each as is and cut at every length from the LLC start to 10 octets into it"""
+  for name, f in corpus():
+    d = P.dissect(f)
+    for l in d.layers:
+      if l["p"] != "llc":
+        continue
+      off = l["off"]
+      for ds in _LLC_SAPS:
+        for ss in _LLC_SAPS:
+          for c in _LLC_CTRL:
+            m = f[:off] + bytes([ds, ss, c]) + f[off + 3:]
+            yield {"raw": m, "src": "llc:%s:%02x/%02x/%02x" % (name, ds, ss, c)}
+            for k in range(0, 11):
+              if off + k < len(m):
+                yield {"raw": m[:off + k], "src": "llc:%s:%02x/%02x/%02x:cut%d" % (name, ds, ss, c, k)}
+
+
+def _text_variants():
+  texts = list(P.UTF8_TEXTS)
+  # the same code points as text that is NOT valid UTF-8 (Latin-1 / truncated sequences), for contrast
+  texts += [b"caf\xe9", b"\xe2\x80", b"\xf0\x9f\x98", b"\xc0\xaf", b"\xed\xa0\x80", b"\xff\xfe"]
+  # labels / strings at their length limits filled with multi-byte text
+  texts += [("\u00e9" * 31).encode("utf-8"), ("\u2019" * 21).encode("utf-8"), ("\U0001f600" * 15).encode("utf-8"),
+            ("\u65e5" * 85).encode("utf-8")]
+  return texts
+
+
+def enum_text(tier):
+  """well-formed frames whose text-bearing fields (DNS labels / TXT, LLDP strings, DHCP string options and sname/file, EAP
+  identity) hold valid 2-, 3- and 4-byte UTF-8 sequences, and malformed UTF-8 for contrast"""
+  for i, t in enumerate(_text_variants()):
+    for name, spec in P.text_catalog(t):
+      yield {"raw": P.build(spec), "src": "text:%s:%d" % (name, i)}
+
+
 def enum_all_values(tier):
   for name, f in corpus():
     if not (name.endswith("-6") or name.endswith("-41")):
@@ -404,6 +447,19 @@ def _dis(frame):
   return d
 
 
+def _utf8_text():
+  """valid UTF-8 with 2-, 3- and 4-byte sequences"""
+  chars = st.one_of(st.characters(min_codepoint=0x20, max_codepoint=0x7e), st.characters(min_codepoint=0x80, max_codepoint=0x7ff),
+                    st.characters(min_codepoint=0x800, max_codepoint=0xffff, blacklist_categories=("Cs",)),
+                    st.characters(min_codepoint=0x10000, max_codepoint=0x10ffff),
+                    st.sampled_from(["\u00e9", "\u2019", "\u65e5", "\U0001f600", "\u0080", "\u07ff", "\u0800", "\uffff", "\U00010000", "\U0010ffff"]))
+  return st.lists(chars, min_size=1, max_size=24).map(lambda cs: "".join(cs).replace(".", "-").encode("utf-8"))
+
+
+def _text_frames():
+  return st.tuples(_utf8_text(), st.integers(0, 5)).map(lambda t: P.build(P.text_catalog(t[0])[t[1]][1]))
+
+
 _BASE = None
 
 
@@ -413,7 +469,7 @@ def _base_frames():
     from ..gen import pktspec
     fixed = st.sampled_from([f for _, f in corpus()])
     built = pktspec.any_spec(64).map(P.build)
-    _BASE = st.one_of(fixed, built)
+    _BASE = st.one_of(fixed, built, _text_frames())
   return _BASE
 
 
@@ -499,6 +555,7 @@ def _s_random(draw):
 
 def _strategy(tier):
   return st.one_of(_s_field(), _s_field(), _s_splice(), _s_multi(), _s_tail(), _s_random(),
+                   _text_frames().map(lambda f: {"raw": f, "src": "text"}),
                    st.binary(max_size=64).map(lambda b: {"raw": b, "src": "random:short"}))
 
 
@@ -517,6 +574,8 @@ def plan(tier):
       Enum("single-fault-checksums-repaired", lambda: enum_faults_repaired(tier), shards=16),
       Enum("option-tlv-slots", lambda: enum_slots(tier), shards=16),
       Enum("demux-keys", lambda: enum_demux(tier), shards=4),
+      Enum("llc-formats", lambda: enum_llc(tier), shards=8),
+      Enum("utf8-text", lambda: enum_text(tier), shards=2),
       Hyp("mutation", lambda: _strategy(tier), examples=6000, shards=16),
     ]
   return [
@@ -524,6 +583,8 @@ def plan(tier):
     Enum("single-fault-checksums-repaired", lambda: enum_faults_repaired(tier), shards=16),
     Enum("option-tlv-slots", lambda: enum_slots(tier), shards=16),
     Enum("demux-keys", lambda: enum_demux(tier), shards=4),
+    Enum("llc-formats", lambda: enum_llc(tier), shards=8),
+    Enum("utf8-text", lambda: enum_text(tier), shards=2),
     Enum("all-values-on-headers", lambda: enum_all_values(tier), shards=16),
     Hyp("mutation", lambda: _strategy(tier), examples=400000, shards=16),
   ] + _fuzz_drivers()
